@@ -75,6 +75,21 @@ func (u *uniq) doc(d docGen) interface{} {
 		}
 		return map[string]interface{}{"list": a, "a": u.leaf(d)}
 	}
+	if rn(8) == 7 {
+		// rows of rows: nested array qualifiers ($.rows[1:3][0:2], $[0,2][1,0]) select from here
+		rows := make([]interface{}, 2+rn(4))
+		for i := range rows {
+			row := make([]interface{}, 2+rn(4))
+			for j := range row {
+				row[j] = u.leaf(d)
+			}
+			rows[i] = row
+		}
+		if chance(50) {
+			return rows
+		}
+		return map[string]interface{}{"rows": rows, "a": u.leaf(d)}
+	}
 	switch rn(4) {
 	case 0:
 		a := make([]interface{}, 1+rn(5))
@@ -189,8 +204,19 @@ func (s *c13State) index() (byCont map[uintptr]location, byLeaf map[string]locat
 		if id, ok := contID(child); ok {
 			byCont[id] = l
 		} else {
-			switch child.(type) {
-			case map[string]interface{}, []interface{}:
+			switch c := child.(type) {
+			case map[string]interface{}:
+			case []interface{}:
+				// an empty array has no identity (no first element): it is located like a leaf,
+				// by its rendering, and is ambiguous when there are several
+				if len(c) == 0 {
+					k := canon(child)
+					if _, dup := byLeaf[k]; dup {
+						byLeaf[k] = location{ambiguous: true}
+					} else {
+						byLeaf[k] = l
+					}
+				}
 			default:
 				k := canon(child)
 				if _, dup := byLeaf[k]; dup {
@@ -228,8 +254,13 @@ func (s *c13State) locate(v interface{}, byCont map[uintptr]location, byLeaf map
 	if id, ok := contID(v); ok {
 		return byCont[id]
 	}
-	switch v.(type) {
-	case map[string]interface{}, []interface{}:
+	switch c := v.(type) {
+	case map[string]interface{}:
+		return location{}
+	case []interface{}:
+		if len(c) == 0 {
+			return byLeaf[canon(v)]
+		}
 		return location{}
 	}
 	return byLeaf[canon(v)]
@@ -324,7 +355,7 @@ func runC13() *RunResult {
 				return
 			}
 			byCont, byLeaf, _ := st.index()
-			hasFunc := len(p.Funcs) > 0
+			hasFunc := len(p.Funcs) > 0 || p.ForeignFunc
 			// for the path families with a reference model the locations come from the model,
 			// independently of what the library selects in either mode
 			var mlocs []mslot
@@ -418,7 +449,7 @@ func runC13() *RunResult {
 	for h := 0; h < nh; h++ {
 		switch rn(8) {
 		case 0, 1, 2, 3: // Set through accessor i
-			pickI := rn(64 * 8)
+			pickI := rn(64 * 10)
 			o := &Op{Kind: opCustom, Path: &PathSpec{Text: "Set"}}
 			o.Do = func(t *Task, o *Op) {
 				if st.dead {
@@ -438,7 +469,7 @@ func runC13() *RunResult {
 				i := cand[pickI%len(cand)]
 				st.seq++
 				var v interface{} = fmt.Sprintf("SET-%d", st.seq)
-				switch pickI / 64 % 8 {
+				switch pickI / 64 % 10 {
 				case 0:
 					v = nil // JSON null is a value like any other
 				case 1:
@@ -447,6 +478,10 @@ func runC13() *RunResult {
 					v = st.seq%2 == 0
 				case 3:
 					v = ""
+				case 4:
+					v = []interface{}{} // an empty array is a value too (and not null)
+				case 5:
+					v = map[string]interface{}{}
 				}
 				o.Path = &PathSpec{Text: st.accPath[i]}
 				func() {
@@ -457,7 +492,7 @@ func runC13() *RunResult {
 					}()
 					st.accs[i].Set(v)
 				}()
-				st.modelWrite(st.locs[i], v)
+				st.modelWrite(st.locs[i], deepCopy(v))
 				if o.Got == "" {
 					o.Got = fmt.Sprintf("accessor %d (%v) Set(%s)", i, st.locs[i], canon(v))
 				}
